@@ -77,6 +77,11 @@ def gen(seed, tier, which):
             out.append({'kind': 'srv_req', 'class': 'srv_req', 'method': 'POST', 'version': 'HTTP/1.1', 'ctype': rnd.choice(TEXT if text else WEB[:2]), 'accept': 'none', 'text': text,
                         'chunks_req': cut(rnd, wire, 'one') if len(payload) > 8000 and len(out) % 2 == 0 else cut(rnd, wire), 'chunks_resp': [], 'trailers': [{'n': 'grpc-status', 'nb': list(b'grpc-status'), 'v': [48]}], 'inner_status': 200,
                         'payload': list(payload), 'wellformed': well})
+            # what the caller offers for the response (its own grpc-accept-encoding header, or none) is the gRPC service's business: the
+            # bridge passes it on as it is
+            g = ('none', 'identity', 'gzip', 'zstd,identity', 'gzip,deflate')[k % 5]
+            out[-1]['gae'] = g
+            out[-1]['gae_bytes'] = list(g.encode())
         # text requests whose base64 form exceeds the layer's 8 KiB buffer constant by a third and more, whole or in two chunks
         for size in (8186, 8190, 9000, 20000):
             payload = bytes(rnd.randrange(256) for _ in range(size))
@@ -239,3 +244,13 @@ def replay(prop, path):
     simple.validate(prop, 'Trace_Web', verdict, ev, p, 'replay', cov, clause_filter=lambda c: c.startswith(prop + '.') or c in ('NoPanic', 'NoHang', 'NothingAfterTheEnd', 'PendingArrangesWakeup', 'InnerCalledOnce'),
                     harness_clauses={'UnknownEvent'})
     return verdict.finish()
+
+
+def bridge_family(prop, tier, seed, verdict, cov, tag):
+    """C05 on the grpc-web bridge: the inner gRPC service is handed the caller's own grpc-accept-encoding (Trace_Web, clause C05.*)."""
+    stims = [s for s in gen(seed, tier, 'C16') if s.get('kind') == 'srv_req' and 'gae' in s]
+    if len(stims) < 20:
+        raise ToolError('web bridge: too few requests')
+    ev, path = simple.run_lab('web', stims, tag, 'web_bridge')
+    simple.validate(prop, 'Trace_Web', verdict, ev, path, 'web_bridge', cov, clause_filter=lambda c: c.startswith(prop + '.') or c in ('NoPanic', 'NoHang'))
+    cov['samples'].append({'family': 'web_bridge', 'stimulus': simple.sample_of(stims)})
